@@ -444,6 +444,15 @@ class Topology(System):
         max_coords = len(positions)
         total = 0
         for meta_mol in self.molecules:
+            # the file lists the atoms in the order of the itp-file, in which the
+            # atoms of a residue do not have to follow each other; residues that
+            # are skipped are not part of the file
+            all_idxs = nx.get_node_attributes(meta_mol.molecule, "index")
+            skipped = {node for res_node in meta_mol.nodes
+                       if meta_mol.nodes[res_node]["resname"] in skip_res
+                       for node in meta_mol.nodes[res_node]["graph"].nodes}
+            in_file = [node for node in sorted(all_idxs, key=all_idxs.get) if node not in skipped]
+            file_idxs = {node: total + count for count, node in enumerate(in_file)}
             for meta_node in meta_mol.nodes:
                 resname = meta_mol.nodes[meta_node]["resname"]
                 # the fragment graph nodes are not sorted so we sort them by index
@@ -468,13 +477,14 @@ class Topology(System):
                 # here we set molecule coordinates in that case we neither
                 # want to backmap nor build these nodes
                 else:
-                    start = total
+                    res_positions = []
                     for mol_node in mol_nodes:
                         # of the coordinates for a single residue are incomplete
                         # we raise an error because otherwise we would set them
                         # based on a non-complete residue
                         try:
-                            meta_mol.molecule.nodes[mol_node]["position"] = positions[total]
+                            res_positions.append(positions[file_idxs[mol_node]])
+                            meta_mol.molecule.nodes[mol_node]["position"] = res_positions[-1]
                         except IndexError:
                             resid = meta_mol.nodes[meta_node]['resid']
                             mol_name = meta_mol.mol_name
@@ -486,7 +496,7 @@ class Topology(System):
                             raise IOError(msg) from IndexError
                         total += 1
 
-                    meta_mol.nodes[meta_node]["position"] = center_of_geometry(positions[start:total])
+                    meta_mol.nodes[meta_node]["position"] = center_of_geometry(np.array(res_positions))
                     meta_mol.nodes[meta_node]["build"] = False
                     meta_mol.nodes[meta_node]["backmap"] = False
 
